@@ -14,7 +14,16 @@ From Coq Require Import ZArith QArith List Bool.
 Import ListNotations.
 Open Scope Z_scope.
 
-Record msg : Type := mkMsg { m_key : Z; m_size : Z; m_cycle : Z }.   (* key: harness handle *)
+(* everything else a message carries and CalculateBusLoad does not read (theorem
+   load_ignores_delay): delay and start delay times, priority, send type, static CAN-ID, number of
+   receivers and of signals (names, descriptions and attribute assignments are of the same kind) *)
+Record msg_rest : Type := mkRest {
+  r_delay : Z; r_start_delay : Z; r_priority : Z; r_send_type : Z;
+  r_static_can_id : option Z; r_receivers : Z; r_signals : Z }.
+Definition no_rest : msg_rest := mkRest 0 0 0 0 None 0 0.
+
+Record msg : Type := mkMsg { m_key : Z; m_size : Z; m_cycle : Z; m_rest : msg_rest }.   (* key: harness handle *)
+Definition plain (key size cycle : Z) : msg := mkMsg key size cycle no_rest.
 Record bus : Type := mkBus { b_typ : Z; b_baud : Z; b_ifaces : list (list msg) }.
 
 (* switch bus.typ { case BusTypeCAN2A: ... } *)
